@@ -161,3 +161,32 @@ PROPS["C06"] = {
     "min_nontrivial": {"quick": 300, "thorough": 300},
     "assumptions": ["the reserved object form {\"__blots_function\": ...} is excluded by the statement", "Python's json is the reference JSON implementation"],
 }
+
+PROPS["C19"] = {
+    "shards": {"quick": 0, "thorough": 0},
+    "needs_cli": True,
+    "offline": _lazy("c19"),
+    "rule": ("scripts built by construction: 0-6 output declarations in four forms (output x = e; x = e ... output x; re-declaration; undeclared bindings in between) whose values are "
+             "literals, echoes of inputs (inputs.k, #k, absent keys, value_N), integer arithmetic and ?? defaults, so the expected outputs object is known without trusting the "
+             "evaluator; an optional failing statement of 8 kinds (unknown name, type error, rebinding, forbidden target, failing call, parse error, non-callable, field of number) "
+             "inserted at a random position; inputs: 0-4 --input flags and/or stdin with objects / arrays / scalars / overlapping keys / invalid JSON; modes: file, inline, -e with "
+             "the source on stdin, -o file, unwritable -o path. Oracle: exit 0 <=> the model says everything succeeds; exactly one JSON object with the declared keys in order and "
+             "the model's values; on failure exit != 0, no outputs object on stdout or in the file, some error report. non-trivial = script has >= 1 output and >= 1 input"),
+    "min_nontrivial": {"quick": 100, "thorough": 100},
+    "assumptions": ["the Python model of input merging follows the statement: stdin first, --input flags left to right, later keys override, non-objects named value_N in order of appearance"],
+}
+
+PROPS["C18"] = {
+    "shards": {"quick": 0, "thorough": 0},
+    "needs_cli": True,
+    "needs_cli_hooks": True,
+    "offline": _lazy("c18"),
+    "rule": ("recursion grammar: 13 entry shapes (self, mutual 2/3, via/where/into, map/filter/reduce/every/group_by callbacks, do-block body, curried) x 10 value-preserving wrappers "
+             "around the recursive call (operator chain left/right, conditional, list+index, record+field, do-block, unary, identity lambda, built-in argument, coalesce) x nesting "
+             "k in {1,2,4,8,16,32}; each run by the hooks-off release CLI under RLIMIT_STACK = 8 MiB. Unbounded variants must exit 1 with 'maximum call depth', never a signal or "
+             "exit 101; bounded variants (100-500 levels, call depth <= 600) must exit 0 with the expected value. quick: every entry x every k with a rotating wrapper; thorough: "
+             "full product. sort_by is excluded (it swallows callback errors, so runaway recursion through it is exponential, not a depth question). "
+             "non-trivial = the run produced a verdict (no watchdog)"),
+    "min_nontrivial": {"quick": 100, "thorough": 100},
+    "assumptions": ["8 MiB is the default main-thread stack (ulimit -s 8192)", "the hooks-on binary is used only for the stack measurements shown in evidence, never for verdicts"],
+}
